@@ -1563,7 +1563,7 @@ class NumpyDocstring(GoogleDocstring):
         def parse_item_name(text: str) -> Tuple[str, Optional[str]]:
             """Match ':role:`name`' or 'name'"""
             m = self._name_rgx.match(text)
-            if m:
+            if m and not text[m.end():].strip():
                 g = m.groups()
                 if g[1] is None:
                     return g[3], None
@@ -1603,6 +1603,11 @@ class NumpyDocstring(GoogleDocstring):
                     current_func = line
             elif current_func is not None:
                 rest.append(line.strip())
+            elif items:
+                # A description indented under a comma separated list of names.
+                items[-1][1].append(line.strip())
+            else:
+                raise ValueError(f"{line} is not a item name")
         push_item(current_func, rest)
 
         if not items:
